@@ -121,7 +121,10 @@ class EngineBase(PathMgr):
         r = Val.r(d)
         kk = self.key_term(k)
         dct = self.strip_fresh(self.st.dct) if self.is_old(d) else self.st.dct
-        v = smt.simp(z3.Select(z3.Select(dct, r), kk))
+        darr = smt.simp(z3.Select(dct, r))
+        v = smt.simp(z3.Select(darr, kk))
+        if self.merged_dicts:
+            self.merged_member_fact(darr, kk)
         self.dict_probes.append((smt.simp(r), kk))
         self.link_dlen(smt.simp(r), kk)
         sid = smt.static_id(Val.ref(r))
